@@ -2,7 +2,7 @@ SPECIFICATION CSpec
 CONSTANTS
   Series = {"s1", "s2"}
   TOff = 0
-  TimesRaw = {1, 2, 3, 5, 9, 10, 13, 14}
+  TimesRaw = {1, 2, 3, 5, 9, 10, 13, 14, 17, 21}
   Vals = {1, 2}
   Types = {"f"}
   Apps = {"a1"}
